@@ -1417,6 +1417,14 @@ def run(ctx):
                       sizes=[gen_size(rng, 512) % 5000 for _ in range(rng.randrange(1, 6))], linkmode=rng.choice(["legal", "chain", "none"]))
         damage_links(rng, c)
         cases.append(c)
+    # storages with many entries: a list-shaped sibling tree (every node black is legal, MS-CFB 2.6.4) and a
+    # balanced one over 70 .. 200 small streams — a walk that bounds its depth or its stack must still reach
+    # every entry
+    for k in range(ctx.scale(4, 24)):
+        m = rng.choice([70, 96, 130, 200])
+        cases.append(make_case(rng, "w%d" % k, rng.choice([512, 4096]), nstor=rng.choice([0, 1]),
+                               sizes=[rng.choice([0, 1, 7, 64, 65]) for _ in range(m)], linkmode=["chain", "legal"][k % 2],
+                               dups=False, tag="wide"))
     # one file whose FAT really needs more than 109 sectors (7.2 MB, 512-byte sectors): the FAT
     # sectors listed in the DIFAT sector describe the end of the file
     cases = big_cases(ctx) + cases
